@@ -58,7 +58,13 @@ def evalAlgG (fuel : Nat) (cfg : DCfg) (w : DEnv α) : F α → Except PyErr (AS
       let l ← evalAlgG fuel cfg w φ
       let r ← evalAlgG fuel cfg w ψ
       match op with
-      | .predSat _ | .predZero => .error .other      -- interface-aware forms: not part of this visitor
+      | .predSat c =>
+          -- an insensitive predicate under a robustness semantics: `visitPredicate` of the interface-aware visitors
+          -- (output robustness: `node.out_vars` empty; the input-robustness class is the same code on `node.in_vars`)
+          match Gen.Dense.iaMethods.lookup "visitPredicate_outRob" with
+          | some m => callD fuel m [l, r] none [("$operator", .cmp c), ("$out_vars", .list [])]
+          | none => .error .type
+      | .predZero => .error .other      -- the vacuity override: not translated (needs the float literal 0.0)
       | _ =>
         match lookupD op.kind with
         | some m => callD fuel m [l, r] none (match op with | .pred c => [("$operator", .cmp c)] | _ => [])
